@@ -62,6 +62,10 @@ def bump_ctx_all(code: str, payload: str) -> list[str]:
         out.append(b)
     if code in ("0418", "3220") and len(payload) >= 6 and payload[4:6] != "00":
         out.append(payload[:4] + "00" + payload[6:])  # index 00 has a special meaning for 0418 (null entry)
+    if code == "0404" and len(payload) >= 4 and payload[2:4] in ("20", "23"):
+        # the schedule-type byte is part of the context too: zone 00's schedule (00 20 ..) and the hot-water schedule (00 23 ..) differ
+        # only there - a fragment of the one is not the reply to a request for the other
+        out.append("00" + ("23" if payload[2:4] == "20" else "20") + payload[4:])
     if code == "0404" and payload[2:4] == "23":
         pass  # the hot-water schedule: the library's context is 'HW' whatever the first byte (one DHW zone, by design)
     elif code in ("0005", "000C", "0404") and len(payload) >= 4:
